@@ -36,6 +36,23 @@ def decVal (f : String) : Option Val :=
       | _ => none
     | _ => none
 
+/-- maps travel as the sorted list of `KEY=value`; a `=` inside a KEY is written U+2261 (so that
+    `{"B": "x=y"}` and `{"B=x": "y"}` differ on the wire) -/
+def eqEsc : Char := Char.ofNat 0x2261
+
+def wirePiece (p : Str × Str) : Str := (p.1.map fun c => if c = '=' then eqEsc else c) ++ '=' :: p.2
+
+def unwirePiece (l : Str) : Str × Str :=
+  match Codec.splitOnFirst ['='] l with
+  | some r => (r.1.map fun c => if c = eqEsc then '=' else c, r.2)
+  | none => (l, [])
+
+/-- a list value addressed to an environment-map setter is the map -/
+def asShape (sh : Shape) (v : Val) : Val :=
+  match sh, v with
+  | .envMap, .list l => .map (l.map unwirePiece)
+  | _, v => v
+
 /-- `none` for a value the model has no reading of -/
 def encVal : Val → Option String
   | .absent => some "none"
@@ -47,6 +64,7 @@ def encVal : Val → Option String
   | .license (.named n t) => some s!"L.NT.{encStr n}.{encStr t}"
   | .origin c (.commit t) => some s!"O.{match c with | some c => String.ofList c | none => "-"}.Commit.{encStr t}"
   | .origin c (.other t) => some s!"O.{match c with | some c => String.ofList c | none => "-"}.Other.{encStr t}"
+  | .map m => some ("l" ++ encList (sortStrs (m.map wirePiece)))
   | .panic => some "PANIC"
   | .unmodelled => none
 
@@ -94,12 +112,26 @@ def noText (view : Str) : Bool := view == "changes.Changes".toList
 
 /-! ## rows of an accessor addressed by name (the getter, or the setter when there is none) -/
 
+/-- the argument the harness passes for the field-name parameter of a method (harness/src/typed.rs,
+    the `custom!` lines) -/
+def harnessArg (view method : Str) : Option Str :=
+  if view == "apt.Package".toList && (method == "tags".toList || method == "set_tags".toList) then some "Tag".toList
+  else if view == "dep3.PatchHeader".toList && method == "set_vendor_bug".toList then some "Debian".toList
+  else none
+
+/-- the table row of a method, instantiated with the harness's argument when its name is a template -/
+def rowFor (view method : Str) : Option Row :=
+  (findRow view method).map fun r =>
+    match harnessArg view method with
+    | some a => r.inst a
+    | none => r
+
 /-- (reading row, writing row) -/
 def rowsOf (view name : Str) : Option Row × Option Row :=
-  match findRow view name with
+  match rowFor view name with
   | none => (none, none)
   | some r =>
-    if r.kind == .get then (some r, findRow view (setPrefix ++ name))
+    if r.kind == .get then (some r, rowFor view (setPrefix ++ name))
     else (none, some r)
 
 /-- reading side of a setter without a getter: the first field of its name, as text -/
@@ -125,7 +157,7 @@ def setTriggers (s : Row) (v : Val) (cs : List DNode) : List String :=
     (insertRows.filterMap fun p => if p.1 == m && present cs s.names then some p.2 else none)
     -- on an absent field the long text is stored as the whole field (its first line becomes the synopsis)
     ++ (if m == "set_long_description" && !present cs s.names then ["F-C15-8"] else [])
-    ++ (if m == "set_vendor_bug" && present cs ["Bug-Debian".toList] then ["F-C15-14"] else [])
+    ++ (if m == "set_vendor_bug" && present cs s.names then ["F-C15-14"] else [])
   else if s.view == "copyright.FilesParagraph".toList && m == "set_license" then
     match v with
     | .license (.text _) => ["F-C15-9"]
@@ -164,6 +196,7 @@ def setget (view name : Str) (text : Str) (idx : Nat) (v : Val) : String :=
       match viewPara view kids idx with
       | none => "bad-args"
       | some (pos, cs) =>
+        let v := asShape s.shape v
         let ts := setTriggers s v cs
         match setSem s v cs with
         | none => withTriggers "*" ts
@@ -184,7 +217,7 @@ def getOnly (view name : Str) (text : Str) (idx : Nat) (want : Option String := 
     match viewPara view kids idx with
     | none => "bad-args"
     | some (_, cs) =>
-      match findRow view name with
+      match rowFor view name with
       | none => "*"
       | some g =>
         if g.isOpaque then "*"
@@ -212,6 +245,7 @@ def seqRun (view : Str) (cs : List DNode) :
     match s with
     | none => none
     | some s =>
+      let v := asShape s.shape v
       -- over-approximation for sequences: an `insert` setter used at all
       let t1 := (setTriggers s v cs) ++
         (if s.op == .insert && s.view == "dep3.PatchHeader".toList then
@@ -275,7 +309,8 @@ def shapeName : Shape → String
   | .firstLine => "firstLine" | .restLines => "restLines"
   | .license => "license" | .licenseBareText => "licenseBareText"
   | .licenseName => "licenseName" | .licenseText => "licenseText"
-  | .originField => "originField" | .rfc2822 => "rfc2822" | .dateYmd => "dateYmd" | .envMap => "envMap" | .vcsScan => "vcsScan"
+  | .originField => "originField" | .rfc2822 => "rfc2822" | .dateYmd => "dateYmd" | .envMap => "envMap" | .vcsScan => "vcsScan" | .bugsScan => "bugsScan" | .headerFix => "headerFix"
+  | .firstPara => "firstPara" | .filterParaWithout excl => s!"filterParaWithout:{String.ofList excl}"
   | .findPara => "findPara" | .filterPara => "filterPara" | .addPara => "addPara"
   | .composite => "composite" | .derived => "derived" | .opaque => "opaque"
 
@@ -290,12 +325,18 @@ def strictRoot (text : Str) : Option DNode :=
   | .ok t => some t
   | .error _ => none
 
+/-- the paragraphs a document-level getter of the table yields -/
+def parasOf (view method : String) (root : DNode) : List DNode :=
+  match findRow view.toList method.toList with
+  | some r => (paraSem r root).getD []
+  | none => []
+
 def ctlFind (text : Str) : String :=
   match strictRoot text with
   | none => "bad-doc"
   | some t =>
-    let src := (findPara t "Source".toList).map Node.text
-    let bins := (filterPara t "Package".toList).map Node.text
+    let src := (parasOf "control.Control" "source" t).head?.map Node.text
+    let bins := (parasOf "control.Control" "binaries" t).map Node.text
     s!"{encOpt src} {encList bins}"
 
 def ctlAdd (text : Str) (kind : String) (name : Str) : Option String :=
@@ -322,14 +363,26 @@ def cprFind (text : Str) : String :=
   | none => "bad-doc"
   | some kids =>
     let t : DNode := .node .ROOT kids
-    let ps := paragraphs t
-    let files := (ps.filter isFilesPara).map fun p =>
+    let header := (parasOf "copyright.Copyright" "header" t).head?
+    let files := (parasOf "copyright.Copyright" "iter_files" t).map fun p =>
       Text.join [' '] (Text.splitWhitespace ((Deb.get p "Files".toList).getD []))
-    let names := (ps.filter isLicensePara).map fun p =>
+    let names := (parasOf "copyright.Copyright" "iter_licenses" t).map fun p =>
       match decode .licenseName false false ((Deb.get p "License".toList).getD []) with
       | .text n => n
       | _ => []
-    s!"{encOpt (ps.head?.map Node.text)} {files.length} {names.length} [{encList files}] [{encList names}]"
+    s!"{encOpt (header.map Node.text)} {files.length} {names.length} [{encList files}] [{encList names}]"
+
+/-- `Header::fix` on the first paragraph: the format string afterwards, the document text -/
+def cprFix (text : Str) : String :=
+  match hostKids "copyright.".toList text with
+  | none => "bad-doc"
+  | some kids =>
+    match viewPara "copyright.Header".toList kids 0 with
+    | none => "bad-args"
+    | some (pos, cs) =>
+      let cs' := fixSem cs
+      let kids' := kids.set pos (.node .PARAGRAPH cs')
+      s!"{encOpt (firstOf cs' [fFormat, fFormatSpec])} {encStr (rootText kids')}"
 
 def handle (op : String) (args : List String) : Option String :=
   match op, args with
@@ -365,7 +418,9 @@ def handle (op : String) (args : List String) : Option String :=
   | "acc.cpr.find", [doc] => do
     let text ← decStr doc
     pure (cprFind text)
-  | "acc.cpr.fix", [_] => some "*"
+  | "acc.cpr.fix", [doc] => do
+    let text ← decStr doc
+    pure (cprFix text)
   | _, _ => none
 
 end Deb822Verif.Driver.Typed
